@@ -134,9 +134,11 @@ def run(case, drv) -> Outcome:
     b_copy, x0_copy = b_in.clone(), None if x0_in is None else x0_in.clone()
     b_ver, x0_ver = b_in._version, None if x0_in is None else x0_in._version
     trace = []
+    kept = []  # the very tensors handed to the callback, looked at again after the run (a caller may keep them)
 
     def cb(st):
         trace.append((st['solution'][0].clone(), st['residual'].clone(), st['iteration_number']))
+        kept.append((st['solution'][0], st['residual']))
 
     st, x = call(lambda: cg(Hop, b_in, initial_value=x0_in, max_iterations=case['budget'], tolerance=tol * sc, callback=cb))
     if st != 'ok':
@@ -144,6 +146,8 @@ def run(case, drv) -> Outcome:
     # cg is homogeneous (theorem C06.cg_homogeneous): the run on (s b, s x0, s tol) is s times the run on (b, x0, tol); s is a
     # power of two, so dividing by it is exact and everything below is compared on the unscaled problem
     x_ret = x
+    corrupted = next((ki for (xi, ri, ki), (xk, rk) in zip(trace, kept, strict=True)
+                      if not (torch.equal(xi, xk) and torch.equal(ri, rk))), None)
     x = x / sc
     trace = [(xi / sc, ri / sc, ki) for xi, ri, ki in trace]
     # ---- model (exact)
@@ -186,8 +190,11 @@ def run(case, drv) -> Outcome:
         return float((v.conj() @ (Hd @ v)).real)
 
     sig = f'{case["start"]}:{"tol0" if case["tol"] == "0" else "tol"}'
+    if corrupted is not None:
+        viol = {'signature': 'cg:iterate-corrupted', 'what': f'the iterate / residual reported to the callback at iteration {corrupted} was overwritten by later '
+                f'iterations (a callback that keeps the tensor sees another iterate, whose residual is not the reported one): {case}'}
     if not bool(torch.isfinite(torch.view_as_real(x.to(torch.complex128))).all()):
-        viol = {'signature': f'cg:nonfinite:{sig}', 'what': f'cg returns non-finite values for an HPD system: {case}'}
+        viol = viol or {'signature': f'cg:nonfinite:{sig}', 'what': f'cg returns non-finite values for an HPD system: {case}'}
     else:
         errs = [hnorm2(xsf - start)]
         iterates = [start]
